@@ -111,6 +111,10 @@ def liftb(x):
     return z3.BoolVal(bool(x))
 
 
+def _is_inf(o):
+    return isinstance(o, (float, _np.floating)) and (o == float("inf") or o == float("-inf"))
+
+
 def _is_num(o):
     return isinstance(o, (int, float, _np.floating, _np.integer, bool, _np.bool_, Fraction))
 
@@ -271,21 +275,29 @@ class SymReal:
     def __lt__(self, o):
         if isinstance(o, _np.ndarray):
             return NotImplemented
+        if _is_inf(o):
+            return o > 0
         return SymBool(self.e < lift(o))
 
     def __le__(self, o):
         if isinstance(o, _np.ndarray):
             return NotImplemented
+        if _is_inf(o):
+            return o > 0
         return SymBool(self.e <= lift(o))
 
     def __gt__(self, o):
         if isinstance(o, _np.ndarray):
             return NotImplemented
+        if _is_inf(o):
+            return o < 0
         return SymBool(self.e > lift(o))
 
     def __ge__(self, o):
         if isinstance(o, _np.ndarray):
             return NotImplemented
+        if _is_inf(o):
+            return o < 0
         return SymBool(self.e >= lift(o))
 
     def __eq__(self, o):
